@@ -36,12 +36,16 @@ type regOp struct {
 	CloseErr  bool     `json:"close_fails,omitempty"`
 	ReopenErr bool     `json:"reopen_fails,omitempty"`
 	FailNode  string   `json:"fail_node,omitempty"` // reopen: label of the node object told to fail
+	Wrap      int      `json:"wrapped,omitempty"`   // regnode: levels of NodeUnwrapper wrapping
 }
 
 func (o regOp) String() string {
 	switch o.Kind {
 	case "regnode":
 		s := fmt.Sprintf("RegisterNode(%q,%s", o.ID, kindName(el.NodeType(o.NodeKind)))
+		if o.Wrap > 0 {
+			s += fmt.Sprintf(",wrapped x%d", o.Wrap)
+		}
 		if o.Policy != "" {
 			s += "," + o.Policy
 		}
@@ -129,7 +133,11 @@ func (w *regWorld) apply(op regOp) (ms []mismatch, failed bool) {
 		}
 		w.objs = append(w.objs, obj)
 		opts, pol, given := policyOpt(op.Policy, true)
-		err := w.broker.RegisterNode(el.NodeID(op.ID), obj, opts...)
+		var reg el.Node = obj
+		for i := 0; i < op.Wrap; i++ {
+			reg = &wrapNode{inner: reg} // the Broker must reach Close through Unwrap
+		}
+		err := w.broker.RegisterNode(el.NodeID(op.ID), reg, opts...)
 		ok := w.model.RegisterNode(op.ID, obj, pol, given)
 		failed = err != nil
 		if (err == nil) != ok {
@@ -544,6 +552,9 @@ func runRegistrySeqOps(rc *RunCtx, prop string, fixed []regOp) {
 			}
 			if prop == "C06" && tp.Choose(4, "closeerr") == 0 {
 				o.CloseErr = true
+			}
+			if (prop == "C06" || prop == "C20") && tp.Choose(4, "wrap") == 0 {
+				o.Wrap = 1 + tp.Choose(2, "wraplevels")
 			}
 			return o
 		case 1:
